@@ -4,7 +4,7 @@
 From Coq Require Import Extraction ExtrOcamlBasic.
 From Coq Require Import List NArith ZArith String.
 From Gen Require Import Tables.
-From Model Require Import Base Names Flt F32 Matches Detect Declared Cd Decode Cli Md Md32 Layers SbLangs Jaro Jaro32 Pipeline Alph.
+From Model Require Import Base Names Flt F32 Matches Detect Declared Cd Decode Cli Md Md32 Layers SbLangs Jaro Jaro32 Pipeline Alph Utf Codecs.
 
 Extraction Language OCaml.
 Separate Extraction
@@ -24,5 +24,7 @@ Separate Extraction
   Layers.alpha_unicode_split
   SbLangs.sb_langs32
   Jaro32.popularity32 Jaro32.jaro32
-  Pipeline.pipeline
+  Pipeline.pipeline Pipeline.pipeline_dec
+  Utf.utf8_encode Utf.utf8_chars Utf.utf16_encode Utf.utf16_helper Utf.utf16_decoder Utf.is_scalar
+  Codecs.modelled_codec Codecs.codec_strict Codecs.codec_test Codecs.codec_chunk
   Alph.alph_check32.
